@@ -264,6 +264,11 @@ def _check_own(ctx):
             cal = t.get("callee") or ""
             ga = t.get("gargs") or []
             on_registry = any("FileDbMap<" in g for g in ga[1:2]) and "btree::map::BTreeMap" in cal and ga and ga[0].endswith("String")
+            if not on_registry and "btree::map::BTreeMap" in cal and t.get("args") and not fn.is_cleanup(b):
+                # a generic helper (`fn f<V>(m: &mut BTreeMap<String, V>)`) inlined into its caller: decide by the receiver
+                ro = leaf_origins(prog, fn, t["args"][0], at=b)
+                cols = {FILEDBINNER.rsplit("::", 1)[-1] + "." + f_["name"] for f_ in regs}
+                on_registry = bool(ro) and any(any(p_.startswith("f:") and p_[2:].rsplit("::", 1)[-1] in cols for p_ in o.proj) for o in ro)
             via_mem = cal.startswith("core::mem::") and any(g.startswith("alloc::collections::btree::map::BTreeMap<") and "FileDbMap<" in g for g in ga)
             if on_registry:
                 reg_calls += 1
